@@ -6,7 +6,7 @@ from numba import guvectorize
 from ._helper import lazycompile
 
 
-@lazycompile(guvectorize("(uint8[:], uint8[:])", "(n) -> ()", nopython=True))
+@lazycompile(guvectorize("(uint8[:], uint32[:])", "(n) -> ()", nopython=True))
 def lroo(data, out):
     """
     Calculate the longest run of ones.
